@@ -537,7 +537,13 @@ def install(env):
         if isinstance(x, (bytes, bytearray)):
             return SBytes(bytes_lit(x), True) if mutable else bytes(x)
         if isinstance(x, SInt):
-            raise Unsupported("bytes(n) with symbolic n")
+            # n zero bytes (ValueError for a negative count); `zeros` is the symbol of pyvc.stubs_crypto
+            from .stubs_crypto import F_zeros
+
+            it.require(x.term >= 0, ValueError, "negative count")
+            t = F_zeros(x.term)
+            it.ctx.assume(z3.Length(t) == x.term)
+            return SBytes(t, mutable) if mutable else ops.mk_bytes(t, False)
         if isinstance(x, int):
             if x < 0:
                 it.raise_exc(ValueError, "negative count")
@@ -691,10 +697,55 @@ def install(env):
 
     env.type_stubs.append((lambda fn: getattr(fn, "__name__", "") == "from_bytes" and getattr(fn, "__self__", None) is int, lambda it, fn, *a, **k: _from_bytes(it, *a, **k)))
 
+    F_bitlen = z3.Function("bit_length", I, I)
+
+    @method(SInt, "bit_length")
+    def _bit_length(it, x):
+        """number of bits of |x|, tied to the minimal big-endian encoding: ceil(bits / 8) = len(minbytes(x))"""
+        from .stubs_srp import F_minbytes
+
+        r = F_bitlen(x.term)
+        it.ctx.assume(z3.And(r >= 0, (r + 7) / 8 == z3.Length(F_minbytes(x.term))))
+        return ops.mk_int(r)
+
+    import math as _math
+
+    def _ceil(it, v):
+        if isinstance(v, SReal):
+            return ops.mk_int(-z3.ToInt(-v.term))
+        if isinstance(v, SInt):
+            return v
+        return it.native(_math.ceil, v)
+
+    stub(_math.ceil, _ceil)
+
+    def _to_bytes_pad(it, x, length, byteorder):
+        """big-endian encoding in `length` bytes for large or symbolic lengths, in the vocabulary of RFC 5054's PAD:
+        zero bytes followed by the minimal encoding; OverflowError when the minimal encoding is longer"""
+        from .stubs_srp import F_minbytes
+        from .stubs_crypto import F_zeros
+
+        if byteorder != "big":
+            raise Unsupported("to_bytes little-endian with a large / symbolic length")
+        xt = x.term
+        it.require(xt >= 0, OverflowError, "can't convert negative int to unsigned")
+        m = F_minbytes(xt)
+        it.ctx.assume(F_os2ip_be(m) == xt)
+        lt = ops.int_term(length)
+        it.require(lt >= 0, ValueError, "length argument must be non-negative")
+        it.require(z3.Length(m) <= lt, OverflowError, "int too big to convert")
+        if not it.ctx.pure and not it.ctx._feasible(lt != z3.Length(m)):
+            return ops.mk_bytes(m, False)  # exactly the minimal length (e.g. ceil(bit_length / 8)): no padding
+        z = F_zeros(lt - z3.Length(m))
+        it.ctx.assume(z3.Length(z) == lt - z3.Length(m))
+        return ops.mk_bytes(z3.Concat(z, m), False)
+
     @method(SInt, "to_bytes")
     def _to_bytes(it, x, length=1, byteorder="big", *, signed=False):
-        if signed or isinstance(length, SV):
-            raise Unsupported("to_bytes signed / symbolic length")
+        if signed:
+            raise Unsupported("to_bytes signed")
+        if isinstance(length, SV) or (isinstance(length, int) and length > 16):
+            return _to_bytes_pad(it, x, length, byteorder)
         xt = x.term
         it.require(z3.And(xt >= 0, xt < z3.IntVal(256 ** length)), OverflowError, "int too big to convert")
         if length <= 16:
